@@ -181,6 +181,7 @@ static void s_report(void) {
     printf("\nW heap");
     size_t len = aws_priority_queue_size(&s_sched.timed_queue);
     bool ok = aws_task_scheduler_is_valid(&s_sched);
+    bool order = true;
     for (size_t i = 0; i < len; ++i) {
         struct aws_task **pp = NULL;
         aws_array_list_get_at_ptr(&s_sched.timed_queue.container, (void **)&pp, i);
@@ -189,10 +190,21 @@ static void s_report(void) {
         if ((*pp)->priority_queue_node.current_index != i || !(*pp)->abi_extension.scheduled) {
             ok = false;
         }
+        if (i > 0) {
+            /* C06 white-box on the scheduler's own timed queue: heap order of the container array */
+            struct aws_task **par = NULL;
+            aws_array_list_get_at_ptr(&s_sched.timed_queue.container, (void **)&par, (i - 1) / 2);
+            if ((*par)->timestamp > (*pp)->timestamp) {
+                order = false;
+            }
+        }
     }
     printf("\nW running\n");
     if (!ok) {
         printf("P MONITOR scheduler invalid or heap handle out of place\n");
+    }
+    if (!order) {
+        printf("P MONITOR timed queue not in heap order\n");
     }
 }
 
